@@ -39,6 +39,17 @@ CLAIMS = {
              "Content-Length line validated natively; URI round trip bounded (names <= 3 chars over 13 characters).",
         technique="VC generation from the Python AST (pyvc) + z3/cvc5; ghost stream state; loop invariant + variant",
         design="3/C16"),
+    "C01": dict(
+        text="handle: for every request dict with a method and every handler outcome (returns / raises "
+             "JSONRPC2Error / raises anything else): exactly one response with the request's id, none for a "
+             "notification, -32601 for methods outside the dispatch table (read from the AST), -32603 for handler "
+             "failures, no exception escapes. run: loop invariant 'response ids == ids of the requests served so "
+             "far, in order', stops only after exit or EOF, variant. The handler family contract is discharged per "
+             "table entry by frame obligations: no handler reaches write_response/write_error or writes running.",
+        note="read_message abstracted by the inbox (C16); JSON-serialisability of handler results not decided "
+             "(residual); logging and post_message assumed not to raise; call graph over-approximates by method name.",
+        technique="VC generation from the Python AST (pyvc) + z3/cvc5; ghost response channel; call-graph frame analysis",
+        design="3/C01"),
 }
 
 NOT_APPLICABLE = {
